@@ -314,7 +314,7 @@ def init_line(num, w0, w1, mat):
 
 def gen(rng, n):
     COV.clear()
-    n_s = int(n * 0.80)
+    n_s = n                                  # S tuples; the other streams come on top
     tuples = []
     for i in range(n_s):
         t, num, tags = gen_tuple(rng)
@@ -420,11 +420,12 @@ def gen_crop_calendar(rng, n):
             if rng.random() < 0.5:
                 kw = {"CropType": rng.choice([1, 2, 3]), "Determinant": rng.choice([0, 1])}
             r = rng.random()
-            if r < 0.15:
+            if r < 0.12:
                 kw["Maturity"] = rng.choice([20000, 9000, 6000])      # too few GDD / more than a year
             c = Crop(name, planting_date=mdstr(valid_md(rng)), harvest_date=None, **kw)
             start = pd.Timestamp("2000-01-01") + pd.Timedelta(days=rng.randint(0, 300))
-            end = start + pd.Timedelta(days=rng.choice([rng.randint(100, 400), rng.randint(300, 1000)]))
+            target = 0.12 <= r < 0.40                                   # maturity placed around day 365 of the season
+            end = start + pd.Timedelta(days=rng.randint(800, 1100) if target else rng.choice([rng.randint(100, 400), rng.randint(300, 1000)]))
             dates = pd.date_range(start, end, freq="D")
             nn = len(dates)
             base = rng.uniform(5, 25); amp = rng.uniform(0, 12)
@@ -441,6 +442,13 @@ def gen_crop_calendar(rng, n):
             from aquacrop.solution.growing_degree_day import growing_degree_day
             sub = w[(w.Date >= pld)]
             gdd = [float(growing_degree_day(c.GDDmethod, c.Tupp, c.Tbase, a, b)) for a, b in zip(sub.MaxTemp.values, sub.MinTemp.values)]
+            if target and len(gdd) > 400:
+                cum = np.cumsum(gdd)
+                j = rng.choice([362, 363, 364, 365, 366, rng.randint(300, 420)])
+                if cum[j] > cum[j - 1]:
+                    kw["Maturity"] = float(cum[j]) - rng.choice([0.0, 0.01, 1e-9])   # first exceeded at index j (or j+1 when equal)
+                    c = Crop(name, planting_date=c.planting_date, harvest_date=None, **kw)
+                    COV["gdd target~365"] += 1
             args = (int(c.Determinant), int(c.CropType), float(c.Emergence), float(c.Senescence), float(c.Maturity), float(c.HIstart),
                     float(c.Flowering), float(c.YldForm), c.CC0, c.CCx, c.CGC)
             try:
